@@ -341,6 +341,51 @@ func runC18(c *Ctx) {
 							}
 						}
 					}
+					if step.st.Form == 'r' {
+						// REPLACE: a DELETE item for the rows that were stored under the statement's keys, then an
+						// INSERT item for all the rows of the statement
+						if len(existed) > 0 {
+							if next >= len(items) {
+								fail("changed_rows_not_recorded", fmt.Sprintf("statement %d (REPLACE): no item for the replaced rows", si))
+								break
+							}
+							it := items[next]
+							next++
+							if it.kind != types.SQLTypeDelete {
+								fail("wrong_item_kind", fmt.Sprintf("statement %d: item kind %v for the rows a REPLACE replaced", si, it.kind))
+							}
+							checkY("before", it.before, step.before, existed)
+							if len(it.after) != 0 {
+								fail("after_image_of_delete_not_empty", "")
+							}
+						}
+						all := map[string]bool{}
+						for k := range existed {
+							all[k] = true
+						}
+						for k := range inserted {
+							all[k] = true
+						}
+						if next >= len(items) {
+							fail("changed_rows_not_recorded", fmt.Sprintf("statement %d (REPLACE): no item for the new rows %v", si, sortedBoolKeys(all)))
+							break
+						}
+						it := items[next]
+						next++
+						if it.kind != types.SQLTypeInsert {
+							fail("wrong_item_kind", fmt.Sprintf("statement %d: item kind %v for the rows a REPLACE inserted", si, it.kind))
+						}
+						if len(it.before) != 0 {
+							fail("before_image_of_insert_not_empty", "")
+						}
+						checkY("after", it.after, step.after, all)
+						for k := range changed {
+							if !all[k] {
+								fail("changed_row_outside_where", fmt.Sprintf("statement %d row %s", si, k))
+							}
+						}
+						continue
+					}
 					if len(existed) > 0 {
 						if next >= len(items) {
 							fail("changed_rows_not_recorded", fmt.Sprintf("statement %d (upsert): no item for the existing rows", si))
